@@ -15,7 +15,7 @@ EXPLANATION = (
     "paseto-core. R12.4: the only public way to reach a sealed token's footer is `unverified_footer`; its fields are not public. "
     "R12.5/R12.6 (shared with C02 R02.5/R02.7): a wrong implicit assertion is rejected (v1/v2) or authenticated (v3/v4), and what is authenticated is the token as received (stored footer bytes, not a re-encoding), so a token that should fail authentication does fail it. These are pure ordering/census properties, so nothing value-dependent remains once they hold.")
 ASSUMPTIONS = ["rustc type checking / MIR construction are correct", "path enumeration covers every acyclic MIR path of the analysed functions (they are loop-free; a loop is reported)"]
-FLOORS = {"R12.1": 1, "R12.2": 12, "R12.3": 13, "R12.4": 2, "R12.5": 12, "R12.6": 1}
+FLOORS = {"R12.1": 1, "R12.2": 12, "R12.3": 13, "R12.4": 4, "R12.5": 12, "R12.6": 1, "R12.7": 24}
 ALLOWED_ERR = {"InvalidToken", "CryptoError", "ClaimsError"}
 PAYLOADERROR_SITES = {
     ("paseto_core", "tokens::SealedToken::<V, P, M, F>::unseal"): "decode error of an authenticated payload (behind the R12.1 gate)",
@@ -103,6 +103,9 @@ def run(ctx):
             for (rule, k, ok, detail, site) in sc.findings:
                 if rule == "R02.4":
                     ctx.add("R12.2", f"C12/R12.2/{key}", ok, detail, site)
+                if rule in ("R02.1", "R02.3"):
+                    # a verification that covers only part of the token, or compares fewer bytes than the tag, is not an authentication
+                    ctx.add("R12.7", f"C12/R12.7/{key}/{rule}", ok, detail, site)
                 if rule == "R02.5":
                     # a wrong implicit assertion is an authentication failure: v1/v2 must reject a non-empty one first, v3/v4 must authenticate it
                     ctx.add("R12.5", f"C12/R12.5/{key}", ok, detail, site)
@@ -161,6 +164,57 @@ def run(ctx):
             if fld["vis"] == "Public":
                 probs.append(f"field {fld['name']} of SealedToken is public")
     ctx.add("R12.4", "C12/R12.4/fields-private", not probs, "; ".join(probs))
+    # census of every function that READS the footer fields of a SealedToken (any crate, trait impls and closures included)
+    adt = core.adts.get("tokens::SealedToken")
+    fidx = {fl["name"]: i for i, fl in enumerate(adt["variants"][0]["fields"])} if adt else {}
+    ALLOWED_READERS = {"footer": ("::unverified_footer", "::unseal"), "encoded_footer": ("::unseal", "core::fmt::Display for tokens::SealedToken<V, P, M, F>>::fmt")}
+    readers = {"footer": set(), "encoded_footer": set()}
+    for c in ctx.crates.values():
+        for k, f in c.fns.items():
+            if not f.get("body"):
+                continue
+            locs = f["body"]["locals"]
+            def scan(pl, is_dest=False):
+                ty = locs[pl["l"]]["ty"]
+                projs = pl["p"]
+                for i, e in enumerate(projs):
+                    t = c.types[ty]
+                    if e == "*":
+                        ty = t.get("inner", ty)
+                        continue
+                    if isinstance(e, dict) and "f" in e:
+                        if t["k"] == "adt" and t["path"].endswith("tokens::SealedToken"):
+                            for nm, ix in fidx.items():
+                                if nm in readers and e["f"] == ix and not (is_dest and i == len(projs) - 1):
+                                    readers[nm].add(k)
+                        ty = e["ty"]
+                    else:
+                        break
+            def visit(o, is_dest=False):
+                if isinstance(o, dict):
+                    if "l" in o and "p" in o:
+                        scan(o, is_dest)
+                        return
+                    for kk, v in o.items():
+                        visit(v, is_dest=(kk in ("place", "dest") and o.get("k") in ("assign", "call") and kk != "rv"))
+                elif isinstance(o, list):
+                    for v in o:
+                        visit(v)
+            for b in f["body"]["blocks"]:
+                for st in b["stmts"]:
+                    if st["k"] == "assign":
+                        scan(st["place"], True)
+                        visit(st["rv"])
+                t = b["term"]
+                if t["k"] == "call":
+                    for a in t["args"]:
+                        visit(a)
+                elif t["k"] in ("switch",):
+                    visit(t["discr"])
+    for nm, who in readers.items():
+        bad = sorted(k for k in who if not any(k.endswith(sfx) or sfx in k for sfx in ALLOWED_READERS[nm]))
+        ctx.add("R12.4", f"C12/R12.4/readers-of-{nm}", bool(fidx) and bool(who) and not bad,
+                (f"the {nm} of a sealed (unverified) token is also read by: {bad}" if bad else ("anchor missing" if not who else "")), facts={"readers": sorted(who)})
     pubs = set()
     for k, f in core.fns.items():
         if f.get("kind") == "AssocFn" and "impl" in f and not f.get("impl_trait") and "{closure" not in k:
